@@ -167,6 +167,9 @@ pub fn directed_inputs() -> Vec<(String, Vec<u8>)> {
     out.push(("OpSwitch odd case words".into(), mk(&[(4 << 16) | 251, 1, 2, 3])));
     // ext inst with and without import
     out.push(("OpExtInst without import".into(), mk(&[(6 << 16) | 12, 1, 2, 3, 4, 5])));
+    for num in [0u32, 1, 81, 82, u32::MAX] {
+        out.push((format!("GLSL import + OpExtInst {} inside a block", num), mk(&[(6 << 16) | 11, 3, 0x4c534c47, 0x6474732e, 0x3035342e, 0, (5 << 16) | 54, 2, 7, 0, 8, (2 << 16) | 248, 9, (6 << 16) | 12, 1, 10, 3, num, (1 << 16) | 253, (1 << 16) | 56])));
+    }
     out.push(("GLSL import + OpExtInst unknown number".into(), mk(&[(6 << 16) | 11, 3, 0x4c534c47, 0x6474732e, 0x3035342e, 0, (6 << 16) | 12, 1, 2, 3, 999, 5])));
     out
 }
@@ -243,6 +246,32 @@ pub fn run(cfg: &Cfg, rep: &mut Report) {
                 r.evaluations += 1;
             }
             r.nontrivial(format!("oversized:{}", d.insts[op].opname));
+        }
+    });
+    // ---- extended instructions of recognised / unrecognised imports with edge numbers, inside blocks
+    run_stage(cfg, rep, "ext-inst", cfg.n(3_000, 300_000), |idx, rng, r| {
+        let set_name = *rng.pick(&["GLSL.std.450", "OpenCL.std", "GLSL.std.450", "OpenCL.std", "GLSL.std.45", "NonSemantic.X", ""]);
+        let table = if set_name.starts_with("GLSL") { &d.glsl } else { &d.cl };
+        let num = match (idx % 4, rng.below(3)) {
+            (0, _) => *rng.pick(&[0u32, 1, 2, 80, 81, 82, 83, 161, 162, 163, 203, 204, 205, 0x7fff_ffff, 0x8000_0000, u32::MAX]),
+            (_, 0) => rng.u32(),
+            (_, 1) => rng.below(400) as u32,
+            _ => table[rng.below(table.len())].opcode,
+        };
+        let mut insts = vec![crate::gram::AInst::named("ExtInstImport", None, Some(1), vec![crate::gram::AOp::s(set_name)])];
+        insts.push(crate::gram::AInst::named("Function", Some(2), Some(3), vec![crate::gram::AOp::w(crate::gram::K::FunctionControl, 0), crate::gram::AOp::id(4)]));
+        insts.push(crate::gram::AInst::named("Label", None, Some(5), vec![]));
+        let mut ops = vec![crate::gram::AOp::id(if rng.chance(1, 6) { 9 } else { 1 }), crate::gram::AOp::w(crate::gram::K::LiteralExtInstInteger, num)];
+        for _ in 0..rng.below(4) {
+            ops.push(crate::gram::AOp::id(rng.below(20) as u32));
+        }
+        insts.push(crate::gram::AInst::named("ExtInst", Some(2), Some(6), ops));
+        insts.push(crate::gram::AInst::named("Return", None, None, vec![]));
+        insts.push(crate::gram::AInst::named("FunctionEnd", None, None, vec![]));
+        let (w, _m, _s) = crate::genmod::encode_module(0x0001_0300, 0, 20, &insts, None);
+        let rp = || crate::util::replay_ref(cfg, "ext-inst", idx);
+        if exercise(&words_to_bytes(&w), r, &rp, &format!("OpExtInst {} of {:?}", num, set_name), false) {
+            r.nontrivial(format!("ext-inst:{}:{}", set_name, if table.iter().any(|e| e.opcode == num) { "known" } else { "unknown" }));
         }
     });
     // ---- mutants
